@@ -1,5 +1,7 @@
 package sx
 
+import "math"
+
 // Cheap unsigned-interval facts about BV terms, harvested from assumed
 // constraints (x <= c, c <= x, x == c and their negations). They let decide()
 // settle byte-class comparisons without a solver call. Purely an
@@ -167,6 +169,8 @@ func (i *interpreter) evalRanges(c *Term) (bool, bool) {
 			return false, true
 		}
 		return false, false
+	case OpFLt, OpFLe, OpFEq, OpFIsNaN, OpFIsInf:
+		return i.evalFRanges(c)
 	case OpEq, OpULe, OpULt, OpSLe, OpSLt:
 		a, b := c.Args[0], c.Args[1]
 		if !a.Sort.IsBV() {
@@ -200,6 +204,107 @@ func (i *interpreter) evalRanges(c *Term) (bool, bool) {
 				return true, true
 			}
 			if ra.lo >= rb.hi {
+				return false, true
+			}
+		}
+	}
+	return false, false
+}
+
+// ---- floating-point interval facts (term vs constant comparisons) ----
+
+type frange struct {
+	lo, hi float64 // inclusive bounds; valid only if known non-NaN
+}
+
+func (i *interpreter) learnFRange(c *Term, v bool) {
+	if len(c.Args) != 2 || !c.Args[0].Sort.IsFP() {
+		return
+	}
+	a, b := c.Args[0], c.Args[1]
+	set := func(t *Term, lo, hi float64) {
+		if t.IsConst() {
+			return
+		}
+		r, ok := i.franges[t.ID]
+		if !ok {
+			r = frange{math.Inf(-1), math.Inf(1)}
+		}
+		if lo > r.lo {
+			r.lo = lo
+		}
+		if hi < r.hi {
+			r.hi = hi
+		}
+		i.franges[t.ID] = r
+	}
+	if !v {
+		return // a false comparison may be due to NaN: learn nothing
+	}
+	switch c.Op {
+	case OpFLe, OpFLt: // a <= b (or <) holds: neither is NaN
+		if b.IsConst() {
+			set(a, math.Inf(-1), fconst(b))
+		} else if a.IsConst() {
+			set(b, fconst(a), math.Inf(1))
+		}
+	case OpFEq:
+		if b.IsConst() {
+			set(a, fconst(b), fconst(b))
+		} else if a.IsConst() {
+			set(b, fconst(a), fconst(a))
+		}
+	}
+}
+
+// evalFRanges settles FP comparisons against constants from interval facts.
+func (i *interpreter) evalFRanges(c *Term) (bool, bool) {
+	if len(c.Args) < 1 || !c.Args[0].Sort.IsFP() {
+		return false, false
+	}
+	rng := func(t *Term) (frange, bool) {
+		if t.IsConst() {
+			f := fconst(t)
+			if f != f {
+				return frange{}, false
+			}
+			return frange{f, f}, true
+		}
+		r, ok := i.franges[t.ID]
+		return r, ok
+	}
+	switch c.Op {
+	case OpFIsNaN:
+		if _, ok := rng(c.Args[0]); ok {
+			return false, true
+		}
+	case OpFIsInf:
+		if r, ok := rng(c.Args[0]); ok && !math.IsInf(r.lo, 0) && !math.IsInf(r.hi, 0) {
+			return false, true
+		}
+	case OpFLt, OpFLe, OpFEq:
+		ra, oka := rng(c.Args[0])
+		rb, okb := rng(c.Args[1])
+		if !oka || !okb {
+			return false, false
+		}
+		switch c.Op {
+		case OpFLt:
+			if ra.hi < rb.lo {
+				return true, true
+			}
+			if ra.lo >= rb.hi {
+				return false, true
+			}
+		case OpFLe:
+			if ra.hi <= rb.lo {
+				return true, true
+			}
+			if ra.lo > rb.hi {
+				return false, true
+			}
+		case OpFEq:
+			if ra.hi < rb.lo || rb.hi < ra.lo {
 				return false, true
 			}
 		}
